@@ -26,14 +26,17 @@ import (
 )
 
 type pworld struct {
-	root    *tn
-	env     *tn          // environment (Env option), nil: none
-	envCfg  *ucfg.Config // the environment as library object
-	res     map[string]string
-	aliases []string // paths of alias settings
-	texts   []string // paths of text settings
-	names   []string // pool of names used in references and API calls
-	chain   bool
+	// references written in nested positions of the environment evaluated by
+	// the models of the current read (reset per read by the reader)
+	nestedHits int
+	root       *tn
+	env        *tn          // environment (Env option), nil: none
+	envCfg     *ucfg.Config // the environment as library object
+	res        map[string]string
+	aliases    []string // paths of alias settings
+	texts      []string // paths of text settings
+	names      []string // pool of names used in references and API calls
+	chain      bool
 }
 
 var aliasNames = []string{"x", "y", "z", "v", "w"}
@@ -166,7 +169,8 @@ func genPaths(r *rand.Rand) *pworld {
 			}
 			keys := append(append([]string{}, envOnly...), both...)
 			cfgNames := sortedKids(t.root)
-			for _, k := range keys {
+			// a value of the environment: literal, or a reference of its own
+			value := func(k string) *tn {
 				n := &tn{kind: 'e'}
 				other := keys[er.Intn(len(keys))]
 				if er.Intn(3) == 0 {
@@ -182,13 +186,40 @@ func genPaths(r *rand.Rand) *pworld {
 				default:
 					n.ex = (&model.Ex{Kind: model.XCat, Kids: []*model.Ex{model.Lit("e"), model.Ref(other)}}).Normalize()
 				}
-				t.env.kids[k] = n
+				return n
+			}
+			for _, k := range keys {
+				t.env.kids[k] = value(k)
 				envNames = append(envNames, k)
 			}
+			// settings NESTED in objects and lists of the environment (only the
+			// environment has them): their references are written in the
+			// environment just like the ones on its top level
+			if er.Intn(3) != 0 {
+				eo := &tn{kind: 'o', kids: map[string]*tn{"k": value("k")}}
+				nested := []string{"eo", "eo.k"}
+				if er.Intn(2) == 0 {
+					eo.kids["j"] = value("j")
+					nested = append(nested, "eo.j")
+				}
+				if er.Intn(3) == 0 {
+					eo.kids["sub"] = &tn{kind: 'o', kids: map[string]*tn{"k": value("k")}}
+					nested = append(nested, "eo.sub", "eo.sub.k")
+				}
+				t.env.kids["eo"] = eo
+				envNames = append(envNames, nested...)
+				envOnly = append(envOnly, nested...)
+			}
 			if er.Intn(3) == 0 {
-				t.env.kids["eo"] = &tn{kind: 'o', kids: map[string]*tn{"k": {kind: 'e', ex: model.Lit("eok")}}}
-				envNames = append(envNames, "eo", "eo.k")
-				envOnly = append(envOnly, "eo", "eo.k")
+				el := &tn{kind: 'l'}
+				nested := []string{"el"}
+				for i, c := 0, 1+er.Intn(2); i < c; i++ {
+					el.elems = append(el.elems, value("l"))
+					nested = append(nested, "el."+strconv.Itoa(i))
+				}
+				t.env.kids["el"] = el
+				envNames = append(envNames, nested...)
+				envOnly = append(envOnly, nested...)
 			}
 		}
 	}
@@ -324,18 +355,22 @@ func (t *pworld) opts() []ucfg.Option {
 func (t *pworld) newPev() *pev {
 	p := &pev{root: t.root, res: t.res}
 	if t.env != nil {
-		p.env, p.envNodes = t.env, map[*tn]bool{}
-		var mark func(n *tn)
-		mark = func(n *tn) {
+		p.env, p.envNodes, p.envNested = t.env, map[*tn]bool{}, map[*tn]bool{}
+		p.nestedHits = &t.nestedHits
+		var mark func(n *tn, depth int)
+		mark = func(n *tn, depth int) {
 			p.envNodes[n] = true
+			if depth > 1 {
+				p.envNested[n] = true
+			}
 			for _, c := range n.kids {
-				mark(c)
+				mark(c, depth+1)
 			}
 			for _, c := range n.elems {
-				mark(c)
+				mark(c, depth+1)
 			}
 		}
-		mark(t.env)
+		mark(t.env, 0)
 	}
 	return p
 }
@@ -381,6 +416,11 @@ func (pr *preader) sigFor(entry, class string) string {
 			class = "cycle-not-reported-as-cyclic"
 		case "repeated-use-reported-as-cycle":
 			class = "false-cycle"
+		}
+		if pr.t.nestedHits > 0 {
+			// the read evaluates a reference written below the top level of the
+			// environment: a class of its own
+			return pr.prefix + "with-env:nested-reference:" + class
 		}
 		return pr.prefix + "with-env:" + class
 	}
@@ -442,6 +482,12 @@ func (pr *preader) run(what string, f func()) bool { return pr.g.run(what, f) }
 // readPath: all reads of one path.
 func (pr *preader) readPath(P string) {
 	t, c, opts, res := pr.t, pr.c, pr.opts, pr.res
+	t.nestedHits = 0
+	defer func() {
+		if t.nestedHits > 0 {
+			res.Ev("path_reads_evaluating_references_nested_in_the_environment", 1)
+		}
+	}()
 	m := t.newPev()
 	n, fail, final := m.walk(P, nil)
 	var v pval
@@ -769,6 +815,12 @@ func (pr *preader) readSlices(P string, n *tn, st []string, entry string) {
 // readWhole: reads of the whole configuration.
 func (pr *preader) readWhole() {
 	t, c, opts, res := pr.t, pr.c, pr.opts, pr.res
+	t.nestedHits = 0
+	defer func() {
+		if t.nestedHits > 0 {
+			res.Ev("path_whole_reads_evaluating_references_nested_in_the_environment", 1)
+		}
+	}()
 	m := t.newPev()
 	d := &deepOut{}
 	want := m.deep(pval{node: t.root}, d)
